@@ -32,7 +32,8 @@ MANIFEST = {
                  "float64 evaluation of the documented criteria with exact set comparison",
     "text": "baker_hubbard: every point of {H..A distance: cutoff*(1+-{1e-3,1e-2,1e-1}), 0.6x, 1.6x, 1 nm} x {D-H..A angle: "
             "cutoff*(1+-{1e-3,1e-2,1e-1}), 0.5x, 175 deg} carried by each of 10 donor->acceptor sites (backbone, side chain, "
-            "N-/C-terminus, proline N, ligand, water) of a 20-residue hand-built topology with explicit bonds, as the deciding "
+            "N-/C-terminus, proline N, ligand, water) of a 20-residue hand-built topology with explicit bonds (incl. H-H bonds in the "
+            "waters and N-N-N / O-O-O chains in the ligands, which must not act as donors; no duplicate rows), as the deciding "
             "frame of an n-frame trajectory in which the bond is otherwise present in k frames (all 0<=k<n<=4, deciding frame "
             "first or last) x freq {0,0.1,0.5,1} x exclude_water x sidechain_only x cut-off settings {(0.25,120),(0.3,150),"
             "(0.2,90)} (thorough: 3x3; quick runs the custom cut-offs with n<=2 frames, freq {0,0.5}, default filters) x {no "
@@ -41,14 +42,16 @@ MANIFEST = {
             "{r_DA: cone cut-off*(1+-{1e-3,1e-2,1e-1}), 0.5x, 0.33*(1+-1e-3), 0.5 nm} in 1..3 frames x the same options. "
             "kabsch_sander: residue pairs on {O..H distance ladder around the E=-0.5 root} x {N-H..O angle 180,150,120} x "
             "{C=O..H angle 180,150,120}, three competing acceptors in all 6 energy orders x 4 sequence positions, proline "
-            "donors, CA-CA ladder around 0.9 nm, chain boundaries, water/ligand residues, windows of 1..3 frames. Oracle = the "
+            "donors, CA-CA ladder around 0.9 nm, chain boundaries, water/ligand residues, donors whose predecessor lacks N, CA, both, "
+            "or is an acetyl cap but has C and O (hydrogen still placed from that C=O), windows of 1..3 frames. Oracle = the "
             "docstring criteria in float64 (strict inequalities; mean presence > freq; 0.33-0.000044 delta^2; "
             "E = 0.42*0.2*33.2*(1/rON+1/rCH-1/rOH-1/rCN) with H 0.1 nm from N along O->C of the preceding residue; best two per "
             "donor). The property is about threshold semantics on all structures; designed grids that straddle every threshold "
             "on every kind of donor/acceptor decide that on the stated finite space.",
-    "note": "Not judged (docstrings silent), only counted: Kabsch-Sander donors that are first in their chain or follow an "
-            "incomplete residue (hydrogen placement undocumented), the covalently bonded pair acceptor i / donor i+1 (skipped by "
-            "DSSP), pairs beyond the 0.9 nm CA pre-filter, energies below DSSP's -9.9 floor. Angles/distances under periodic "
+    "note": "Not judged (docstrings silent), only counted: Kabsch-Sander donors that are first in their chain or follow a "
+            "residue without C/O (hydrogen placement undocumented), the covalently bonded pair acceptor i / donor i+1 (skipped by "
+            "DSSP), pairs beyond the 0.9 nm CA pre-filter, energies below DSSP's -9.9 floor. The ASan kernel seam and its toolchain are "
+            "optional: if they do not build or run the memory check is skipped with a WARNING, never a check error. Angles/distances under periodic "
             "boundaries are minimum-image vectors from the hydrogen (donor) atom; cells are at least 2.6 nm wide. Trusted: "
             "numpy float64, vlib/refmodels/mic.py.",
     "ref": "DESIGN.md §3 C14, §2.4",
@@ -74,8 +77,11 @@ TEMPL = {
     "HIS": ("HIS", "N:N H:H CA:C C:C O:O CB:C CG:C ND1:N HD1:H CE1:C NE2:N",
             "N-H N-CA CA-C C-O CA-CB CB-CG CG-ND1 ND1-HD1 ND1-CE1 CE1-NE2"),
     "PRO": ("PRO", "N:N CD:C CA:C C:C O:O CB:C", "N-CD N-CA CA-C C-O CA-CB"),
-    "LIG": ("LIG", "C1:C N1:N H1:H O1:O C2:C N2:N", "C1-N1 N1-H1 C1-O1 C1-C2 C2-N2"),
-    "HOH": ("HOH", "O:O H1:H H2:H", "O-H1 O-H2"),
+    # the ligand carries an azide-like N-N-N chain and a trioxide-like O-O-O chain, the waters an explicit H-H bond
+    # (rigid-water topologies of prmtop/psf files): bonds between two N, two O or two H are NOT donors
+    "LIG": ("LIG", "C1:C N1:N H1:H O1:O C2:C N2:N NA1:N NA2:N NA3:N OP1:O OP2:O OP3:O",
+            "C1-N1 N1-H1 C1-O1 C1-C2 C2-N2 C2-NA1 NA1-NA2 NA2-NA3 C2-OP1 OP1-OP2 OP2-OP3"),
+    "HOH": ("HOH", "O:O H1:H H2:H", "O-H1 O-H2 H1-H2"),
 }
 
 # (donor template, D, H, acceptor template, A, label)
@@ -360,7 +366,10 @@ def judge_traj(spec, xyz32, cellrec, opts_bh, opts_wn, stats, recs):
                 extra -= oxt
         if extra:
             t = sorted(extra)[0]
-            cls = "not-a-candidate" if t not in _set(tr) else "criterion-not-met"
+            cls = "criterion-not-met"
+            if t not in _set(tr):
+                el = (T["atoms"][t[0]][1], T["atoms"][t[1]][1])
+                cls = "not-a-candidate" if (el[0] in ("N", "O") and el[1] == "H") else "donor-is-%s-%s-bond" % el
             rec("%s|extra|%s|%s" % (fn, cls, _sitekind(T, t)), "reports %s %s which the documented criterion rejects%s"
                 % (t, [T["atoms"][i][:3] for i in t], "" if frame is None else " in frame %d" % frame), call)
         if missing:
@@ -589,7 +598,7 @@ def ks_topology(atoms):
     return top
 
 
-def ks_unit(b, origin, rot, donor_name, x_oh, a1, a2, phi, ca_dist=None, acc_first=False, acc_name="ALA"):
+def ks_unit(b, origin, rot, donor_name, x_oh, a1, a2, phi, ca_dist=None, acc_first=False, acc_name="ALA", pred="full"):
     """One pair unit = predecessor P, donor D, acceptor A (sequence order P, D, A or A, P, D when acc_first).
     The donor's documented H (0.1 nm from N along O->C of P) is at `origin`; geometry rotated by `rot`."""
     N, H, C, O = ks_place_pair(x_oh, a1, a2, phi)
@@ -616,7 +625,15 @@ def ks_unit(b, origin, rot, donor_name, x_oh, a1, a2, phi, ca_dist=None, acc_fir
     ids = {}
     if acc_first:
         ids["A"] = b.add_protein(acc_name, ac, tr(Na), tr(CAa), tr(C), tr(O))
-    ids["P"] = b.add_protein("GLY", chain, tr(Np), tr(CAp), tr(Cp), tr(Op))
+    if pred == "full":
+        ids["P"] = b.add_protein("GLY", chain, tr(Np), tr(CAp), tr(Cp), tr(Op))
+    else:
+        # incomplete predecessor that still has its carbonyl: the donor's hydrogen is defined by that C=O all the same
+        lst = {"noN": [("CA", "C", CAp), ("C", "C", Cp), ("O", "O", Op)],
+               "noCA": [("N", "N", Np), ("C", "C", Cp), ("O", "O", Op)],
+               "noNCA": [("C", "C", Cp), ("O", "O", Op)],
+               "ACE": [("CH3", "C", CAp), ("C", "C", Cp), ("O", "O", Op)]}[pred]
+        ids["P"] = b.add_other("ACE" if pred == "ACE" else "ALA", chain, [(nm, el, tr(pos)) for nm, el, pos in lst])
     ids["D"] = b.add_protein(donor_name, chain, tr(N), tr(CAd), tr(Cd), tr(Od))
     if not acc_first:
         ids["A"] = b.add_protein(acc_name, ac, tr(Na), tr(CAa), tr(C), tr(O))
@@ -662,6 +679,25 @@ def ks_frames(seed, quick):
             b_frames.append(np.array(b.xyz))
             atoms, res = b.atoms, b.res
         out.append(("grid-v%d" % variant, atoms, np.array(b_frames, np.float32), res))
+    # --- (a') donors whose predecessor is incomplete (no N, no CA, neither, acetyl cap) but HAS atoms named C and O:
+    #          the hydrogen is placed from that C=O; frames = the O..H ladder; first a complete residue so that the
+    #          incomplete ones sit at index >= 1, a second copy of the cap starts a new chain (cap = first residue of its chain)
+    preds = ["full", "noN", "noCA", "noNCA", "ACE", "ACE"]
+    frames = []
+    for fi in range(len(lad)):
+        b = KSBuilder()
+        b.add_protein("GLY", 0, [0.3, 3.0, 0.3], [0.4, 3.1, 0.3], [0.5, 3.0, 0.4], [0.6, 3.05, 0.4])
+        firsts = []
+        for k, pk in enumerate(preds):
+            a1, a2, phi = angs[k % 3], angs[(k // 3) % 3], 0.9 * k
+            root = ks_root(a1, a2, phi) or 0.2
+            if k == len(preds) - 1:
+                firsts.append(len(b.res))
+            ks_unit(b, np.array([0.7 + 1.2 * (k % 3), 0.7 + 1.3 * (k // 3), 0.9]), rots[(k + 2) % len(rots)], "ALA",
+                    root * lad[(fi + 3 * k) % len(lad)], a1, a2, phi, pred=pk)
+        b.set_chains(firsts)
+        frames.append(np.array(b.xyz))
+    out.append(("incomplete-pred", b.atoms, np.array(frames, np.float32), b.res))
     # --- (b) three acceptors competing for one donor: strengths by O..H factor; all 6 orders x 4 sequence positions
     facs = [0.62, 0.72, 0.84]          # x root: all three clearly below -0.5, clearly different energies
     for pos in range(4):               # number of acceptors placed before the donor in the sequence
@@ -764,11 +800,14 @@ def judge_ks(label, atoms, xyz32, res, a, bnd, stats, recs, top=None):
                     rec("kabsch_sander|extra|incomplete-donor", "donor residue %d has no N/CA/C/O but bonds %s" % (j, col_got))
                 continue
             if np.isnan(ref["H"][j, 0]):
-                nj["donor-H-undocumented(chain-first or incomplete predecessor)"] = nj.get(
-                    "donor-H-undocumented(chain-first or incomplete predecessor)", 0) + 1
+                nj["donor-H-undocumented(chain-first or predecessor without C/O)"] = nj.get(
+                    "donor-H-undocumented(chain-first or predecessor without C/O)", 0) + 1
                 if col_got:
                     nj["...of which the kernel reports bonds"] = nj.get("...of which the kernel reports bonds", 0) + 1
                 continue
+            if j > 0 and not ref["full"][j - 1]:
+                nj["(judged) donors behind an incomplete predecessor that has C and O"] = nj.get(
+                    "(judged) donors behind an incomplete predecessor that has C and O", 0) + 1
             if res[j]["name"] == "PRO":
                 stats["ks_pairs"] += 1
                 wb = int(np.nansum((E[:, j] < hr.KS_CUTOFF - tolE[:, j]) & (ca[:, j] < hr.KS_CA_PREFILTER)))
@@ -953,7 +992,8 @@ def ks_asan(lib, kinds, scratch):
 def run_memory_family(ctx_repo, scratch, only=None):
     """Returns (records, counts)."""
     from concurrent.futures import ThreadPoolExecutor
-    recs, counts = [], dict(sentinel_cases=0, asan_cases=0, asan_available=True, sentinel_view_not_shared=0)
+    recs, counts = [], dict(sentinel_cases=0, asan_cases=0, asan_available=True, sentinel_view_not_shared=0,
+                             asan_harness_errors=[])
     cases = [c for c in MEM_CASES if only is None or c[0] == only]
     for name, kinds, cls in cases:
         a, sh1 = ks_sentinel(kinds, [-0.3, 1.2, 1.0])       # "atom -1" one nm on the -x side of the water oxygen
@@ -978,8 +1018,10 @@ def run_memory_family(ctx_repo, scratch, only=None):
             sig = "kabsch_sander|asan|read-before-xyz|%s" % (cls or name)
             recs.append((sig, "residue list %s (%s): AddressSanitizer: %s" % (kinds, name, text), dict(family="ks-mem", case=name, sig=sig)))
         elif status == "error":
-            # a broken harness is a defect of the check, not of mdtraj: stop instead of reporting or hiding it
-            raise RuntimeError("check error: ASan harness failed on case %s: %s" % (name, text))
+            # a broken harness is a defect of the check / toolchain, not of mdtraj: no violation, no check error;
+            # said so in the evidence (run() prints a WARNING)
+            counts["asan_cases"] -= 1
+            counts["asan_harness_errors"].append("%s: %s" % (name, text[-200:]))
     return recs, counts
 
 
@@ -1023,6 +1065,9 @@ def run(ctx):
     kres = ctx.pmap(work_ks, kitems, chunksize=2)
     mrecs, mcounts = run_memory_family(ctx.repo, ctx.scratch)
     ctx.report(mrecs)
+    if mcounts["asan_harness_errors"]:
+        print("WARNING ASan kernel-seam harness failed on %d case(s); memory check incomplete" % len(mcounts["asan_harness_errors"]))
+        ctx.assume("the AddressSanitizer harness (vlib/kern/hbseam.cpp) failed to run for: %s" % "; ".join(mcounts["asan_harness_errors"]))
     if not mcounts["asan_available"]:
         ctx.assume("AddressSanitizer runtime not available: the kernel-seam memory check was skipped")
     tot = _new_stats()
